@@ -159,8 +159,12 @@ def r2(ctx):
             continue
         st = b.stores()
         got = {}
+        dup = []
         for bi, si, path, value, s in st:
-            got[render(path)] = (render(value), b.guard(bi) == acc[0], bi, si)
+            if render(path) in got:
+                dup.append(render(path))
+            got[render(path)] = (render(value), b.guard(bi) == acc[0] and got.get(render(path), (0, True))[1], bi, si)
+        ctx.check("%s:validate_sequence" % venue, not dup, "each sequencer field is stored at exactly one place", got=dup, key="single-store")
         want = {"self.last_update_id": "update.last_update_id", "self.updates_processed": "AddWithOverflow(self.updates_processed, 1).0"}
         if venue == "spot":
             want["self.prev_last_update_id"] = "self.last_update_id"
@@ -322,7 +326,7 @@ def r5(ctx):
                         if "last_update_id" in f:
                             seeds.append(render(f["last_update_id"]))
         # `new` may be inlined as a constructor: look for the aggregate too
-        ok = any(x.endswith(".sequence") or ".sequence" in x for x in seeds)
+        ok = bool(seeds) and all(x.endswith(".sequence") and "snapshot" in x.lower() or x.endswith(".kind.as:Snapshot.0.sequence") for x in seeds)
         n += 1
         ctx.check("%s:transformer-init" % venue, ok, "the sequencer is seeded with the initial snapshot's sequence (lastUpdateId)",
                   got=seeds, key="seed")
